@@ -212,3 +212,114 @@ pub fn run(seed: u64, max_seconds: u64, threads: usize) -> i32 {
     eprintln!("found {} of {} targets in {:.0}s", f.len(), TARGETS.len(), t0.elapsed().as_secs_f64());
     0
 }
+
+// ---------------------------------------------------------------- direct bits
+//
+// The decoder's range register, right before it halves the range for a direct
+// bit of a long distance, sits exactly on the boundary between "halving calls
+// for a refill byte" and "it does not" about once in 2^26 direct bits. A slip
+// in that comparison is invisible to random symbol programs. `lzsim dbwitness`
+// searches for programs that put the register on each value of
+// `DIRECT_BIT_WATCH`; the ones found are embedded in `gen::DIRECT_BIT_WITNESSES`
+// and rebuilt (and re-verified by the self-test) from (tail seed, symbol count).
+
+use crate::refmodel::codec::{Props, RefEnc, DIRECT_BIT_WATCH};
+use crate::refmodel::lz::Sym;
+
+pub const DB_DICT: u64 = 1 << 20;
+
+/// 1 MiB of history from a literal and dist-1 matches, then (from the probabilities'
+/// point of view) a warm-up of 64 far matches.
+pub fn db_base() -> RefEnc {
+    let mut enc = RefEnc::new(Props { lc: 3, lp: 0, pb: 2 }, DB_DICT);
+    enc.keep_trace = false;
+    let _ = enc.encode(Sym::Lit(0x41));
+    while (enc.model.out.len() as u64) < DB_DICT - 300 {
+        let _ = enc.encode(Sym::Match { dist: 1, len: 273 });
+    }
+    enc
+}
+
+#[inline]
+fn db_next(x: &mut crate::prng::Xoshiro, avail: u64) -> Sym {
+    let r = x.next();
+    if r % 11 == 0 {
+        return Sym::Lit((r >> 8) as u8);
+    }
+    let lo = 1u64 << 16;
+    let dist = lo + (r >> 16) % (avail.min(DB_DICT) - lo);
+    Sym::Match { dist: dist as u32, len: 2 + ((r >> 4) % 5) as u32 }
+}
+
+/// Encode `nsyms` tail symbols drawn from `seed` onto `enc`; returns the watch mask.
+pub fn db_tail(enc: &mut RefEnc, seed: u64, nsyms: u32) -> u32 {
+    let mut x = crate::prng::Xoshiro::new(seed);
+    for _ in 0..nsyms {
+        let s = db_next(&mut x, enc.model.avail() as u64);
+        let _ = enc.encode(s);
+    }
+    enc.direct_bit_watch()
+}
+
+/// (properties, dictionary, payload, expected output, watch mask) of witness (seed, nsyms)
+pub fn build_db_witness(seed: u64, nsyms: u32, marker: bool) -> (Props, u64, Vec<u8>, Vec<u8>, u32) {
+    let mut enc = db_base();
+    let mask = db_tail(&mut enc, seed, nsyms);
+    if marker {
+        enc.encode_end_marker();
+    }
+    let props = enc.props();
+    let payload = enc.finish_segment();
+    (props, DB_DICT, payload, std::mem::take(&mut enc.model.out), mask)
+}
+
+pub fn run_db(seed: u64, max_seconds: u64, threads: usize) -> i32 {
+    let found: Mutex<Vec<(u32, u64, u32)>> = Mutex::new(Vec::new());
+    let done = AtomicBool::new(false);
+    let t0 = std::time::Instant::now();
+    let base = db_base();
+    std::thread::scope(|s| {
+        for w in 0..threads {
+            let found = &found;
+            let done = &done;
+            let base = &base;
+            s.spawn(move || {
+                let mut n = 0u64;
+                while !done.load(Ordering::Relaxed) {
+                    let tail_seed = seed.wrapping_mul(0x9E37_79B9_7F4A_7C15) ^ ((w as u64) << 40) ^ n;
+                    n += 1;
+                    let mut enc = base.clone();
+                    let mut x = crate::prng::Xoshiro::new(tail_seed);
+                    let mut seen = 0u32;
+                    for k in 0..3000u32 {
+                        let s = db_next(&mut x, enc.model.avail() as u64);
+                        let _ = enc.encode(s);
+                        let m = enc.direct_bit_watch();
+                        if m != seen {
+                            let newbits = m & !seen;
+                            seen = m;
+                            let mut f = found.lock().unwrap();
+                            for i in 0..DIRECT_BIT_WATCH.len() as u32 {
+                                if newbits & (1 << i) != 0 && !f.iter().any(|e| e.0 == i) {
+                                    // 40 more symbols after the hit, so that a decoder that
+                                    // went out of step has something to get wrong
+                                    println!("    ({:#x}, {}, {}), // range {:#010x} before a direct bit", tail_seed, k + 41, i, DIRECT_BIT_WATCH[i as usize]);
+                                    f.push((i, tail_seed, k + 41));
+                                }
+                            }
+                            if f.len() == DIRECT_BIT_WATCH.len() {
+                                done.store(true, Ordering::Relaxed);
+                            }
+                        }
+                    }
+                    if t0.elapsed().as_secs() > max_seconds {
+                        done.store(true, Ordering::Relaxed);
+                    }
+                }
+            });
+        }
+    });
+    let f = found.lock().unwrap();
+    eprintln!("found {} of {} values in {:.0}s", f.len(), DIRECT_BIT_WATCH.len(), t0.elapsed().as_secs_f64());
+    0
+}
